@@ -56,7 +56,10 @@ class World:
             if td.n + self.in_flight(tgt) >= td.capacity:
                 self.violations.append(("never-fires-towards-a-device-without-room", "BallCountHandler.wait_for_ready_to_receive",
                                         "%s fired a ball at %s (capacity %d) which holds %d and has %d in transit" % (d.name, tgt, td.capacity, td.n, self.in_flight(tgt))))
-        failing = d.pulses <= self.fail.get(d.name, 0)
+        mode, k = self.fail.get(d.name, ("back", 0)) if isinstance(self.fail.get(d.name, 0), tuple) else ("back", self.fail.get(d.name, 0))
+        failing = d.pulses <= k
+        if failing and mode == "stuck":
+            return                      # the coil fires but the ball does not leave
         t_leave = self.dur.get("leave", 0.1)
 
         def leave():
